@@ -140,6 +140,39 @@ let () =
       | mode :: cap :: inp -> Some (show_tresult (translate_ref !e_table (z_of_int mode) (List.map z_of_int inp) (z_of_int cap)))
       | _ -> failwith "TR")
 
+(* ---- multipass (literal rules): rules are added after TB/TE lines
+   PR stage idx items | action      items: L n v.. | B k | O | C ; action: L n v.. | Q (omit) | S (copy)
+   PF mode cap inp...   forward driver: "D consumed | cells | posmap | trace"                 *)
+let p_rules : (int * prule) list ref = ref []
+let () =
+  reg "TB" (fun _ -> e_table := []; p_rules := []; None);
+  reg "PR" (fun ws ->
+      (match split_bar ws with
+       | [ st :: idx :: items; act ] ->
+         let rec parse = function
+           | [] -> []
+           | "L" :: n :: r -> let n = int_of_string n in
+             let rec take k l = if k = 0 then ([], l) else (match l with x :: t -> let (a, b) = take (k - 1) t in (x :: a, b) | [] -> failwith "PR L") in
+             let (vs, rest) = take n r in TLit (List.map (fun v -> z_of_int (int_of_string v)) vs) :: parse rest
+           | "B" :: k :: r -> TLook (z_of_int (int_of_string k)) :: parse r
+           | "O" :: r -> TOpen :: parse r
+           | "C" :: r -> TClose :: parse r
+           | _ -> failwith "PR item" in
+         let a = (match act with
+             | "L" :: _ :: vs -> ALit (List.map (fun v -> z_of_int (int_of_string v)) vs)
+             | [ "Q" ] -> AOmit | [ "S" ] -> ACopy | _ -> failwith "PR action") in
+         p_rules := !p_rules @ [ (int_of_string st, { p_idx = z_of_int (int_of_string idx); p_test = parse items; p_act = a }) ]
+       | _ -> failwith "PR"); None);
+  reg "PF" (fun ws -> match ints ws with
+      | mode :: cap :: inp ->
+        let st k = List.map snd (List.filter (fun (s, _) -> s = k) !p_rules) in
+        let pt = { pt_main = !e_table; pt_correct = st 0; pt_pass2 = st 2; pt_pass3 = st 3; pt_pass4 = st 4 } in
+        (match forward pt (z_of_int mode) (List.map z_of_int inp) (z_of_int cap) with
+         | DOk (c, cells, pm, tr) -> Some ("D " ^ string_of_int (int_of_z c) ^ " | " ^ show_zs cells ^ " | " ^ show_zs pm ^ " | " ^ show_zs tr)
+         | DUnsupported -> Some "D UNSUPPORTED"
+         | DOutOfFuel -> Some "D OUTOFFUEL")
+      | _ -> failwith "PF")
+
 (* ---- backward engine for single-cell definition tables (uses the TB/TE table)
    BK cap cells...   ->  "B consumed | chars | posmap"  / "B UNSUPPORTED"
    OO                ->  "O <one_to_one> <defs_only>"                                        *)
